@@ -8,8 +8,11 @@
 EXTENDS PMStep
 
 (* ---------------- C13: mark operations ---------------- *)
+(* what add_mark marks: inline tokens that are atoms - text, inline leaves and inline nodes declared `atom` (such a
+   node, e.g. a footnote with text content, is marked as a whole through its open token; the text inside it is
+   inline and atomic too) - under a parent that allows the mark type *)
 MarkableTok(d, i, mt) ==
-  (d[i].k = "x" \/ (d[i].k = "l" /\ IsInlineType(d[i].t))) /\ AllowsMarkType(ParentTypeAt(d, i), mt)
+  IsInlineTok(d[i]) /\ IsAtomTok(d[i]) /\ AllowsMarkType(ParentTypeAt(d, i), mt)
 AddMarkOp(d, f, t, mk) ==
   Canonize([i \in 1..Len(d) |->
      IF f < i /\ i <= t /\ MarkableTok(d, i, mk.t) THEN [d[i] EXCEPT !.m = AddToSet(mk, @)] ELSE d[i]])
